@@ -179,6 +179,8 @@ def run(sc):
                     bad = 'start'
             else:
                 lo, hi = max(fa[0][0], fb[0][0]), min(fa[-1][0], fb[-1][0])
+                if sc['pastify']:
+                    lo = max(lo, sg.horizon(lhs) * common.DENSE_TICK)
                 if not D.nondecreasing(a) or not D.nondecreasing(b):
                     bad = 'decreasing stamps'
             if not bad and lo <= hi:
@@ -191,7 +193,8 @@ def run(sc):
             nontriv = len(fa) > 1
             r.sim_time += max(0.0, hi - lo)
     else:
-        if len(a) != len(b) or not all(eqn(x, y) for x, y in zip(a, b)):
+        h0 = int(sg.horizon(lhs)) if sc['pastify'] else 0       # warm-up outputs of a pastified monitor are not specified (C03)
+        if len(a) != len(b) or not all(eqn(x, y) for x, y in list(zip(a, b))[h0:]):
             bad = 'values'
         nontriv = common.count_nontrivial(a)
         r.sim_time += sc['n']
